@@ -1,5 +1,6 @@
 import GarbleVerif.Model.Consts
 import GarbleVerif.Proofs.Wrap
+import GarbleVerif.Proofs.BitMain
 /-!
 # C12 — constant parameters
 
@@ -15,8 +16,14 @@ constant's own type):
 * `C12_minmax_differs`: for `min` / `max` over a wrapped operand the two differ (the concrete
   instance recorded as a finding: `max(100u8 + 200u8, 50u8)`).
 
-The substitution property itself (a program compiled with constants behaves like the program
-with the values written out) is compared on generated programs on every run.
+Program level (`C12_program`, for the fragment of Model/BitSem.lean): a function compiled with the constants of the
+program as wires of the outermost scope — each the encoding of the constant's value in its declared type
+(`Bit.constEnv`) — returns what the source semantics return when the constants are variables bound to those values
+(`runFn` evaluates the body in `parameters ++ constants`); and a reference to such a variable evaluates to the
+value like the literal does (`C12_const_reads_value`, `C12_literal_is_value`). The equivalence with the program
+text in which the values are written out — which also goes through the parser, the checker's inference for
+unsuffixed numbers and `compile_with_constants`' own bookkeeping (array sizes, missing / mistyped constants) — is
+compared on generated programs on every run.
 -/
 namespace GV
 namespace Src
@@ -87,5 +94,53 @@ theorem C12_minmax_differs :
     wrapTo .u8 (exact ⟨fun _ _ => 0, fun _ => 0⟩ (.max (.add (.lit 100) (.lit 200)) (.lit 50))) = 44 := by
   decide
 
+/-- a reference to a constant reads its value … -/
+theorem C12_const_reads_value (fuel : Nat) (prog : Prog) (env : Env) (c : String) (v : Val) (h : env.get? c = some v) :
+    evalExpr (fuel + 1) prog env (.var c) = .ok (v, env) := by
+  simp [evalExpr, h]
+
+/-- … which is what the number written out evaluates to -/
+theorem C12_literal_is_value (fuel : Nat) (prog : Prog) (env : Env) (n : Int) (k : IntTy) :
+    evalExpr (fuel + 1) prog env (.int n k) = .ok (.int n, env) := by
+  simp [evalExpr]
+
 end Src
+
+namespace Bit
+open Src
+
+/-- **constants as wires = constants as values**: for every function of a program with constants (typed, each value
+of its type), every inlining depth, all arguments and every fuel, the compiled body — parameters bound to the
+argument wires, constants to the encodings of their values — returns the encoding of what the source semantics
+return with the constants bound to their values, or records exactly the first failure -/
+theorem C12_program (prog : Prog) (depth fuel : Nat) (fn : String) (vals : List Val) (argsB : List (VTy × List Bool))
+    (t : VTy) (bits : List Bool) (p : P) (hargs : ArgsRel vals argsB)
+    (h : callAt prog (depth + 1) fn argsB = some (t, bits, p)) :
+    match runFn fuel prog fn vals with
+    | .ok v => p = none ∧ v.hasType t.toTy = true ∧ bits = v.encode t.toTy
+    | .error (.panic k) => p = some k
+    | .error (.stuck _) => False
+    | .error .fuel => True := by
+  have hs := callAt_sound prog (depth + 1) fuel fn vals argsB t bits p hargs h
+  cases hr : runFn fuel prog fn vals with
+  | ok v =>
+    rw [hr] at hs
+    exact ⟨hs.1, hs.2.hasType_encode.1, hs.2.hasType_encode.2⟩
+  | error er =>
+    rw [hr] at hs
+    cases er with
+    | panic k => exact hs
+    | stuck w => exact hs
+    | fuel => trivial
+
+/-- non-vacuity: `const K: u8 = 200;  fn f(a: u8) -> u8 { a + K }` — with `a = 100` the addition overflows, with
+`a = 5` it gives 205 -/
+def C12_example_prog : Prog :=
+  { fns := [⟨"f", [("a", .int .u8)], .int .u8, .cons (.expr (.bin .add (.int .u8) (.var "a") (.var "K"))) .nil⟩],
+    consts := [("K", .int 200)], constTys := [("K", .int .u8)] }
+
+example : callAt C12_example_prog 1 "f" [(.s (.int .u8), enc .u8 5)] = some (.s (.int .u8), enc .u8 205, none) := by rfl
+example : (callAt C12_example_prog 1 "f" [(.s (.int .u8), enc .u8 100)]).map (·.2.2) = some (some .overflow) := by rfl
+
+end Bit
 end GV
